@@ -135,11 +135,20 @@ def replay_classdef(args):
     ids = {}
     d = {}
     b3 = []
-    for k, (n, kind) in enumerate(body):
-        val = _make(h, leaf, bund, kind, None)
-        ids[id(val)] = k + 1
+    made = []
+    for k, item in enumerate(body):
+        n, kind = item[0], item[1]
+        alias_of = item[2] if len(item) > 2 else None
+        if alias_of is not None:
+            # `p = n = h.Signal()` in a class body: the object of an earlier entry under a second name
+            val = made[alias_of]
+            b3.append([n, kind, alias_of + 1])
+        else:
+            val = _make(h, leaf, bund, kind, None)
+            ids[id(val)] = k + 1
+            b3.append([n, kind, k + 1])
+        made.append(val)
         d[n] = val
-        b3.append([n, kind, k + 1])
     # class body dict: a later assignment to a name replaces the earlier one (Python semantics), so the
     # body the decorator sees is the last binding per name, in first-binding order
     seen = {}
@@ -224,6 +233,10 @@ def run(tier, seed, replay_file=None):
         if body and (t, body) not in seen and len(body) == len(hs) and all(k != 'nonhdl' for _, k in body):
             seen.add((t, body))
             cd.append((t, list(body)))
+    # ... and the same bodies with the second entry being the FIRST entry's object under another name
+    for t, b in list(cd):
+        if len(b) >= 2 and b[0][0] != b[1][0] and len(cd) < 4 * len(seen):
+            cd.append((t, [b[0], (b[1][0], b[0][1], 0)] + list(b[2:])))
     base = len(hists)
     alljobs = [("h", i, t, hs) for i, (t, hs) in enumerate(hists)] + [("c", base + i, t, b) for i, (t, b) in enumerate(cd)]
     rnd = random.Random(seed)
@@ -260,7 +273,7 @@ def run(tier, seed, replay_file=None):
                     feats = features(t, hs)
                 else:
                     t, b = cd[i - base]
-                    case = {"target": t, "classdef": b, "hist": [{"op": "setattr", "name": n, "kind": k, "mode": ""} for n, k in b]}
+                    case = {"target": t, "classdef": b, "hist": [{"op": "setattr", "name": x[0], "kind": x[1], "mode": ""} for x in b]}
                     feats = features(t, case["hist"]) + ["classdef"]
                 o.violations.append(Violation(clause=clause, case=case, features=feats, detail=tr if len(o.violations) < 30 else None))
         del traces, results, verdicts
